@@ -77,6 +77,7 @@ func c14(ctx *Ctx) {
 		var sample []opj
 		dnsFirst := r.Chance(60)
 		fastClosed := false
+		var maxWindow time.Duration // longest call so far, clock read before to clock read after
 		for j := 0; j < nops; j++ {
 			if r.Chance(30) {
 				time.Sleep(time.Duration(r.Intn(3)) * time.Millisecond)
@@ -122,7 +123,10 @@ func c14(ctx *Ctx) {
 			pc.mu.Lock()
 			dl := pc.deadline
 			pc.mu.Unlock()
-			obs = append(obs, fmt.Sprintf("%d", rel(dl)))
+			if w := time.Since(now); w > maxWindow {
+				maxWindow = w
+			}
+			obs = append(obs, fmt.Sprintf("(%d, %d)", rel(dl), (5*time.Millisecond + maxWindow).Nanoseconds()))
 			sample = append(sample, opj{isWrite, dns, rel(now), rel(dl)})
 			// monitor: the property's promise, independently
 			if isWrite {
@@ -130,7 +134,7 @@ func c14(ctx *Ctx) {
 				if dns {
 					want = 17 * time.Second
 				}
-				if dl.Before(now.Add(want - time.Millisecond)) {
+				if dl.Before(now.Add(want - time.Millisecond)) { // now was read BEFORE the call: the deadline can only be later
 					sig := "C14/deadline-shorter-than-promised"
 					if fastClosed && !dns && T < 17*time.Second {
 						sig += "/after-dns-fast-close"
@@ -140,7 +144,7 @@ func c14(ctx *Ctx) {
 			}
 		}
 		ctx.NonTrivial(fmt.Sprint(ops))
-		terms = append(terms, fmt.Sprintf("{| c_T := %d; c_ops := %s; c_obs := %s |}", T.Nanoseconds(), cListT("top", ops), "("+cListT("Z", obs)+")%Z"))
+		terms = append(terms, fmt.Sprintf("{| c_T := %d; c_ops := %s; c_obs := %s |}", T.Nanoseconds(), cListT("top", ops), "("+cListT("(Z * Z)", obs)+")%Z"))
 		ctx.Stats.Cases++
 		if i < 2 {
 			ctx.Sample(map[string]interface{}{"nat_timeout_ns": T.Nanoseconds(), "ops": sample})
